@@ -14,7 +14,7 @@ CONSTANTS Loc,       \* Loc[a] : sequence of host addresses of agent a
           D, F, K, H,  \* disconnected / failed timeouts, keepalive interval (0 = off), transaction lifetime
           Acc,         \* Acc[typ] : acceptance minimum wait per candidate type
           Steps, MaxTime,  \* clock increments offered to Advance, horizon
-          NomBase,     \* nomination values issued are NomBase+1, NomBase+2, ...
+          NomBase, NomStep, \* nomination values issued are NomBase + 1, NomBase + 1 + NomStep, NomBase + 1 + 2*NomStep, ...
           Renom, MaxRenom, \* renomination enabled (controlling side issues valued nominations), budget
           MaxData,     \* budget of application-data operations (writes and injected data datagrams)
           Lite,        \* Lite[a] : a is an ICE-lite agent
@@ -60,7 +60,8 @@ PairById(ps, id) == LET S == {k \in 1..Len(ps) : ps[k].id = id} IN IF S = {} THE
 PPrio(ctl, lp, rp) == LET g == IF ctl THEN lp ELSE rp   d == IF ctl THEN rp ELSE lp
                           mn == IF g < d THEN g ELSE d  mx == IF g > d THEN g ELSE d
                       IN mn * 100 + mx * 2 + (IF g > d THEN 1 ELSE 0)
-NewPair(id, l, r, rprio, ctl) == [id |-> id, l |-> l, r |-> r, st |-> "W", nom |-> FALSE, nos |-> FALSE, reqs |-> 0,
+\* pnv: nomination value of a deferred renomination (0 = plain USE-CANDIDATE)
+NewPair(id, l, r, rprio, ctl) == [id |-> id, l |-> l, r |-> r, st |-> "W", nom |-> FALSE, nos |-> FALSE, pnv |-> 0, reqs |-> 0,
                                   prio |-> PPrio(ctl, HostPrio, rprio)]
 Best(ps, S) == IF S = {} THEN 0 ELSE CHOOSE k \in S : \A j \in S : ps[j].prio < ps[k].prio \/ (ps[j].prio = ps[k].prio /\ k <= j)
 BestValid(ps) == Best(ps, {k \in 1..Len(ps) : ps[k].st = "S"})
@@ -209,10 +210,11 @@ HandleReq(b, lc, m) ==
               rejected == nominates /\ ~accept
               st1 == IF Lite[b] /\ accept THEN "S" ELSE p.st    \* a lite agent puts an accepted nomination straight into the valid list
               doSel == accept /\ (st1 = "S" \/ "selvalid" \in Miss)
-                       /\ (cur = 0 \/ (cur # k /\ (m.nom # 0 \/ ~NeedPrio(b) \/ ps[cur].prio < p.prio \/ "prioless" \in Miss)))
-              defer == accept /\ st1 # "S"      \* the nomination value is NOT remembered with the pair (F-C20a)
+                       \* a plain USE-CANDIDATE never overrides a valued nomination (lastNom # 0: renomination in use)
+                       /\ (cur = 0 \/ (cur # k /\ (m.nom # 0 \/ (lastNom[b] = 0 /\ (~NeedPrio(b) \/ ps[cur].prio < p.prio \/ "prioless" \in Miss)))))
+              defer == accept /\ st1 # "S"      \* the nomination value is remembered with the pair (pnv)
               ps0 == [ps EXCEPT ![k].st = st1]
-              ps1 == IF doSel THEN SelectPair(b, ps0, k) ELSE IF defer THEN [ps0 EXCEPT ![k].nos = TRUE] ELSE ps0
+              ps1 == IF doSel THEN SelectPair(b, ps0, k) ELSE IF defer THEN [ps0 EXCEPT ![k].nos = TRUE, ![k].pnv = m.nom] ELSE ps0
               sel1 == IF doSel THEN p.id ELSE sel[b]
               trig == ~rejected /\ ~Lite[b] /\ (st1 # "S" \/ sel1 = 0)
           IN /\ lastNom' = [lastNom EXCEPT ![b] = IF accept /\ m.nom # 0 THEN m.nom ELSE @]
@@ -228,19 +230,24 @@ HandleReq(b, lc, m) ==
 HandleSucc(b, lc, m) ==
   LET live == Expire(pend[b])  T == {x \in live : x.tid = m.tid} IN
   /\ lastRx' = [lastRx EXCEPT ![b][m.src] = now]
-  /\ IF T = {} THEN net' = net (-) One(m) /\ pend' = [pend EXCEPT ![b] = live] /\ UNCHANGED <<pairs, sel, conn, answered>>
+  /\ IF T = {} THEN net' = net (-) One(m) /\ pend' = [pend EXCEPT ![b] = live] /\ UNCHANGED <<pairs, sel, conn, answered, lastNom>>
      ELSE LET x == CHOOSE y \in T : TRUE IN
        /\ pend' = [pend EXCEPT ![b] = live \ {x}] /\ net' = net (-) One(m)
-       /\ IF x.dst # m.src /\ "respdst" \notin Miss THEN UNCHANGED <<pairs, sel, conn, answered>>
+       /\ IF x.dst # m.src /\ "respdst" \notin Miss THEN UNCHANGED <<pairs, sel, conn, answered, lastNom>>
           ELSE LET ps == pairs[b]  k == PairIdx(ps, lc, m.src) IN
-               IF k = 0 THEN UNCHANGED <<pairs, sel, conn, answered>>
+               IF k = 0 THEN UNCHANGED <<pairs, sel, conn, answered, lastNom>>
                ELSE LET p == ps[k]
                         cur == IF sel[b] = 0 THEN 0 ELSE PairById(ps, sel[b])
-                        doSel == IF role[b] = "controlling" THEN (x.uc \/ "ctlsel_uc" \in Miss) /\ (x.nom # 0 \/ sel[b] = 0)
-                                 ELSE p.nos /\ (cur = 0 \/ (cur # k /\ (~NeedPrio(b) \/ ps[cur].prio <= p.prio)))
+                        \* controlling: lastNom[b] holds the newest acknowledged nomination value (the response of an older one is not followed);
+                        \* controlled: a deferred renomination wins by value while it is still the latest accepted one
+                        newer == x.nom # 0 /\ x.nom >= lastNom[b]
+                        doSel == IF role[b] = "controlling" THEN (x.uc \/ "ctlsel_uc" \in Miss) /\ (IF x.nom # 0 THEN newer ELSE sel[b] = 0)
+                                 ELSE IF p.nos /\ p.pnv # 0 THEN lastNom[b] = p.pnv /\ cur # k
+                                 ELSE p.nos /\ (cur = 0 \/ (cur # k /\ lastNom[b] = 0 /\ (~NeedPrio(b) \/ ps[cur].prio <= p.prio)))
                     IN /\ pairs' = [pairs EXCEPT ![b][k].st = "S", ![b][k].nom = (p.nom \/ doSel)]
                        /\ sel' = [sel EXCEPT ![b] = IF doSel THEN p.id ELSE @]
                        /\ conn' = [conn EXCEPT ![b] = IF doSel THEN "Connected" ELSE @]
+                       /\ lastNom' = [lastNom EXCEPT ![b] = IF role[b] = "controlling" /\ x.uc /\ newer THEN x.nom ELSE @]
                        /\ answered' = [answered EXCEPT ![b] = IF x.dst = m.src THEN @ \cup {<<gen[b], p.id, FALSE>>} \cup (IF x.uc THEN {<<gen[b], p.id, TRUE>>} ELSE {}) ELSE @]
 
 \* authentication predicates of the receiver
@@ -258,7 +265,7 @@ Deliver(m) ==
            ELSE net' = net (-) One(m) /\ out' = EmptyBag /\ Nothing(b) /\ UNCHANGED lastRx
         ELSE IF m.kind = "succ" THEN
            IF RespAuthOK(b, m) /\ RemIdx(remotes[b], m.src) # 0 THEN
-              HandleSucc(b, lc, m) /\ out' = EmptyBag /\ UNCHANGED <<role, remotes, nextId, nomPair, nextTid, selStart, lastNom>>
+              HandleSucc(b, lc, m) /\ out' = EmptyBag /\ UNCHANGED <<role, remotes, nextId, nomPair, nextTid, selStart>>
            ELSE net' = net (-) One(m) /\ out' = EmptyBag /\ Nothing(b) /\ UNCHANGED lastRx
         ELSE IF m.kind = "ind" THEN   \* indications are not authenticated; they refresh liveness of a known source only
            /\ net' = net (-) One(m) /\ out' = EmptyBag /\ Nothing(b)
@@ -336,7 +343,7 @@ Advance(d) == now + d <= MaxTime /\ now' = now + d /\ out' = EmptyBag
 \* RenominateCandidate on the controlling side: a USE-CANDIDATE request carrying a fresh nomination value
 Renominate(a, k) ==
   /\ Renom /\ role[a] = "controlling" /\ k \in 1..Len(pairs[a]) /\ nomGen[a] < MaxRenom
-  /\ LET p == pairs[a][k]  v == NomBase + nomGen[a] + 1  t == nextTid[a] IN
+  /\ LET p == pairs[a][k]  v == NomBase + 1 + nomGen[a] * NomStep  t == nextTid[a] IN
      /\ nomGen' = [nomGen EXCEPT ![a] = @ + 1] /\ issued' = Append(issued, [v |-> v, l |-> p.l, r |-> p.r])
      /\ out' = One([Req(a, t, p.l, p.r, TRUE) EXCEPT !.nom = v]) /\ net' = net (+) out'
      /\ pend' = [pend EXCEPT ![a] = Expire(@) \cup {[Txn(t, p.r, TRUE) EXCEPT !.nom = v]}]
